@@ -277,6 +277,11 @@ def run(ctx):
     ctx.evaluations += 4
     if why:
         ctx.problem('oracle', 'property fails on the implementation: ' + why, inputs={'suite': 'noise_exponents'}, failing_input_found=True)
+    why, _ = oracle_tiny_merged()
+    ctx.suites['tiny_merged_coefficient'] = {'cases': 2, 'failure': why}
+    ctx.evaluations += 2
+    if why:
+        ctx.problem('oracle', 'property fails on the implementation: ' + why, inputs={'suite': 'tiny_merged'}, failing_input_found=True)
     why, _ = oracle_decimal(ctx.rng)
     ctx.suites['decimal_exponents'] = {'cases': 12, 'failure': why}
     ctx.evaluations += 12
@@ -422,6 +427,39 @@ def oracle_noise_exponents(rng):
         if abs(lhs - rhs) > 1e-8 * (1 + abs(lhs)):
             return ('polynomials with exponents computed in floating point (0.3/0.1 for 3): s(x) h(x) = %r but s.c . (C G_L(x)) = %r at x = %s for the coefficient vector %s'
                     % (lhs, rhs, xv.tolist(), coeffs.tolist())), None
+    return None, None
+
+
+def oracle_tiny_merged():
+    """an exponent of s*h produced by two (s-term, h-term) pairs whose coefficients nearly cancel (merged coefficient 1e-13, not zero) is an exponent of
+    s*h: when L lacks it moment_reduction_array must raise, and when L has it the identity holds for every other coefficient vector of s"""
+    Signomial, Polynomial, sc = mods()
+    eps = 1e-13
+    for poly in (False, True):
+        cls = Polynomial if poly else Signomial
+        s = cls(np.array([[0.0], [1.0]]), np.array([1.0, 1.0]))
+        h = cls(np.array([[0.0], [1.0], [2.0]]), np.array([1.0, eps - 1.0, 1.0]))
+        Lmiss = cls(np.array([[0.0], [3.0]]), np.array([1.0, 1.0]))
+        Lfull = cls(np.array([[0.0], [1.0], [2.0], [3.0]]), np.ones(4))
+        raised = False
+        try:
+            Cm = np.asarray(sc.moment_reduction_array(s, h, Lmiss), dtype=float)
+        except RuntimeError:
+            raised = True
+        if not raised:
+            return ('moment_reduction_array(s, h, L) returned C=%s without error for %s s = 1 + g1, h = 1 + (1e-13 - 1) g1 + g2 (g_k the monomial with exponent k), '
+                    'L with exponents {0, 3}: exponents 1 and 2 of s*h (coefficient 1e-13 under s.c = (1, 1), and 1 / -1 under s.c = (1, 0)) are not in L'
+                    % (Cm.tolist(), 'Polynomial' if poly else 'Signomial')), None
+        C = np.asarray(sc.moment_reduction_array(s, h, Lfull), dtype=float)
+        for coeffs in ([1.0, 0.0], [0.0, 1.0], [2.0, -3.0]):
+            coeffs = np.array(coeffs)
+            for xv in (0.5, 1.25):
+                g = (lambda k: xv ** k) if poly else (lambda k: float(np.exp(k * xv)))
+                lhs = (coeffs[0] + coeffs[1] * g(1)) * (1 + (eps - 1.0) * g(1) + g(2))
+                rhs = float(coeffs @ (C @ np.array([g(0), g(1), g(2), g(3)])))
+                if abs(lhs - rhs) > 1e-9 * (1 + abs(lhs)):
+                    return ('s(x) h(x) = %r but s.c . (C G_L(x)) = %r at x = %r for s.c = %s, h = 1 + (1e-13 - 1) g1 + g2, L with exponents 0..3; C=%s'
+                            % (lhs, rhs, xv, coeffs.tolist(), C.tolist())), None
     return None, None
 
 
